@@ -203,33 +203,53 @@ theorem genSupported_eq : genSupported = sup4 := by unfold genSupported; rw [upg
 of `common.ProcessSlots` (per slot: increment the slot, then `UpgradeMaybe`), instantiated with the
 regenerated `UpgradeMaybe` chain and the regenerated `Fork{…}` literals of the `UpgradeToX` functions, with
 the 64-bit wrapping product `Slot(epoch) * SLOTS_PER_EPOCH` of the source.
-For every monotone schedule (equal, adjacent, never-activated forks), started from the phase0 genesis the
-repository builds, after `n` slots the state type is `forkAt c (epoch n)` and `state.fork` is
-`(version of the preceding fork, version of forkAt, epoch of forkAt)` (phase0: `(genesis, genesis, 0)`) —
-`specState`. Hypotheses: phase0 is the right genesis fork (`ALTAIR_FORK_EPOCH ≠ 0`); the chain stays before
-Electra (`UpgradeToElectra` is unsupported in the repository and returns an error); no fork's wrapped
-64-bit boundary product falls within the first `n` slots unless it is the true product (for
-`FAR_FUTURE_EPOCH * 8` the wrapped value is `2^64 − 8`: holds for every reachable `n`). -/
+For every monotone schedule (equal, adjacent, never-activated forks, forks at epoch 0), started from a
+genesis state in the fork active at epoch 0 (`genesisStateOf`: fork record `(v, v, 0)`), after `n` slots
+the state type is `forkAt c (epoch n)` and `state.fork` is `(version of the preceding fork, version of
+forkAt, epoch of forkAt)` — the genesis record while still in the genesis fork (`specState`).
+Hypotheses: the chain stays before Electra (`UpgradeToElectra` is unsupported in the repository and returns
+an error); no fork's wrapped 64-bit boundary product falls within the first `n` slots unless it is the
+true product (for `FAR_FUTURE_EPOCH * 8` the wrapped value is `2^64 − 8`: holds for every reachable `n`). -/
 theorem state_fork_invariant (c : Schedule) (spe : UInt64) (n : Nat)
-    (hmono : c.Monotone) (hspe : spe ≠ 0) (hgen : c.altairEpoch ≠ 0) (hn : n < 2 ^ 64)
+    (hmono : c.Monotone) (hspe : spe ≠ 0) (hn : n < 2 ^ 64)
     (hwrap : ∀ f : Fork, (c.epochOf f * spe.toNat) % 2 ^ 64 ≤ n → c.epochOf f * spe.toNat < 2 ^ 64)
     (hpre : n / spe.toNat < c.electraEpoch.toNat) :
-    processSlots genUpgrade genSupported c spe n (genesisState c) = .ok (specState c spe n) ∧
+    processSlots genUpgrade genSupported c spe n (genesisStateOf c) = .ok (specState c spe n) ∧
     (specState c spe n).ty = forkAt c (n / spe.toNat) ∧
     (specState c spe n).cur = c.versionOf (forkAt c (n / spe.toNat)) := by
   have hs : 0 < spe.toNat := by
     rcases Nat.eq_zero_or_pos spe.toNat with h | h
     · exact absurd (UInt64.toNat_inj.mp (by rw [h]; rfl)) hspe
     · exact h
-  have hg : 0 < c.altairEpoch.toNat := by
-    rcases Nat.eq_zero_or_pos c.altairEpoch.toNat with h | h
-    · exact absurd (UInt64.toNat_inj.mp (by rw [h]; rfl)) hgen
-    · exact h
   have hE : n < P c spe .electra := (Nat.div_lt_iff_lt_mul hs).mp hpre
   refine ⟨?_, rfl, rfl⟩
-  rw [genUpgrade_eq, genSupported_eq, genesis_eq c spe hmono hg]
-  have := run c spe n hmono hs hg hn hwrap hE n 0 (by omega)
+  rw [genUpgrade_eq, genSupported_eq, genesisOf_eq c spe]
+  have := run c spe n hmono hs hn hwrap hE n 0 (by omega)
   simpa using this
+
+/-- the phase0 genesis zrnt builds (`GenesisFromEth1` / `KickStartState`) is the right genesis exactly when
+Altair is not scheduled at epoch 0 -/
+theorem phase0_genesis_is_right (c : Schedule) (hmono : c.Monotone) (hgen : c.altairEpoch ≠ 0) :
+    genesisState c = genesisStateOf c := by
+  apply genesis_eq c hmono
+  rcases Nat.eq_zero_or_pos c.altairEpoch.toNat with h | h
+  · exact absurd (UInt64.toNat_inj.mp (by rw [h]; rfl)) hgen
+  · exact h
+
+/-- **What the code does with Altair (and later forks) scheduled at epoch 0 and a phase0 genesis** — the
+case outside `state_fork_invariant`: `UpgradeMaybe` runs only *after* a slot increment, the phase0 → Altair
+row fires only at slot `0 * SLOTS_PER_EPOCH = 0`, and every later row needs a later state type; so the
+state stays phase0 with the genesis fork record forever (never an error), whatever the other fork epochs
+are. This is also what the consensus specification's `process_slots` does (its upgrade runs after the slot
+was advanced to the fork's first slot); a later-fork genesis has to be created as such
+(`genesisStateOf`; zrnt offers only `UpgradeToX` by hand for that). -/
+theorem phase0_genesis_stuck_when_altair_at_genesis (c : Schedule) (spe : UInt64) (n : Nat)
+    (ha : c.altairEpoch = 0) (hn : n < 2 ^ 64) :
+    processSlots genUpgrade genSupported c spe n (genesisState c) =
+      .ok { genesisState c with slot := UInt64.ofNat n } := by
+  rw [genUpgrade_eq, genSupported_eq]
+  have := stuck_run c spe ha n 0 (by omega)
+  simpa [genesisState] using this
 
 /-- non-vacuity: altair = bellatrix at epoch 1 (equal), capella adjacent at 2, deneb at 4, electra/fulu never;
 after 37 slots (epoch 4) the chain is a Deneb state with fork (capella version, deneb version, 4) -/
@@ -246,6 +266,14 @@ example : exampleSchedule.Monotone ∧ exampleSchedule.altairEpoch ≠ 0 ∧
     specState exampleSchedule 8 8 = { ty := .bellatrix, prev := 0xb1, cur := 0xb2, epoch := 1, slot := 8 } := by
   refine ⟨by decide, by decide, ?_, by decide, by decide, by decide⟩
   intro f; cases f <;> decide
+
+/-- non-vacuity for a later-fork genesis: altair = bellatrix = 0, capella at 1 -/
+example :
+    let c : Schedule := { exampleSchedule with altairEpoch := 0, bellatrixEpoch := 0, capellaEpoch := 1 }
+    c.Monotone ∧ genesisStateOf c = { ty := .bellatrix, prev := 0xb2, cur := 0xb2, epoch := 0, slot := 0 } ∧
+    specState c 8 7 = { ty := .bellatrix, prev := 0xb2, cur := 0xb2, epoch := 0, slot := 7 } ∧
+    specState c 8 8 = { ty := .capella, prev := 0xb2, cur := 0xb3, epoch := 1, slot := 8 } := by
+  decide
 
 /-! ## Constants -/
 
